@@ -113,6 +113,64 @@ inline std::vector<uint32_t> gen_partition(Tape & t, int64_t total, uint32_t spd
 // ---------------------------------------------------------------------------------------------
 // General writer program (C05, C14, C17, C19, C03): several signals/types, contiguous FSR streams
 // cut into writes, omit toggles, annotations, UTC, user data, flushes, interleaved.
+// "Big block" shape: one FSR signal whose DATA chunks are about 1-5 KiB (block payload a multiple of 128 bytes, biased to
+// 3968 bytes = chunk size 4024), a handful of blocks, a few annotations / UTC entries in between.  With such chunk sizes the
+// end of a crash image lies 1 KiB (+ k*1000 bytes) behind a chunk header for some of the crash points, which is where the
+// reader's backward scan for the last valid chunk (1 KiB windows) switches windows.
+inline Program gen_bigblock(Tape & t, int size) {
+    Program p;
+    p.ops.push_back(gen_source(t, 1));
+    // bytes of sample data per block: chosen first, so that the chunk size (B + 56) sits next to a multiple of 1 KiB
+    // (B = 1024k - 32: a complete chunk ends 1024k + 24 bytes after its start; B = 1024k - 64: chunk + the next chunk's
+    // header = 1024k + 24; B = 3968: chunk = 1024 + 3*1000), or is any multiple of 32 bytes
+    int64_t B;
+    switch (t.weighted({3, 3, 3, 1, 4})) {
+        case 0: B = 3968; break;
+        case 1: B = 1024 * t.range(1, 4) - 32; break;
+        case 2: B = 1024 * t.range(1, 4) - 64; break;
+        case 3: B = 1024 * t.range(1, 4); break;
+        default: B = 32 * t.range(28, 160); break;
+    }
+    // a data type whose summary entry granularity divides B (sdf * bits must be a multiple of 256 bits and sdf >= 10)
+    struct TG { const char * name; int gran; };
+    static const TG TY[] = {{"u8", 32}, {"u16", 32}, {"i16", 32}, {"u4", 32}, {"f32", 64}, {"i32", 64}, {"u32", 64}, {"f64", 128}};
+    std::vector<const TG *> ok;
+    for (auto & x : TY) if (B % x.gran == 0) ok.push_back(&x);
+    const TG & tg = *ok[t.below((uint32_t) ok.size())];
+    const DType & dt = *dtype_by_name(tg.name);
+    int id = (int) t.range(1, 255);
+    Tape empty(nullptr, 0);
+    Op def = gen_signal(empty, id, 1, dt, DEF_MINIMAL);
+    def.spd = (uint32_t) (B * 8 / dt.bits);
+    def.sdf = (uint32_t) (tg.gran * 8 / dt.bits);          // tg.gran bytes of samples per summary entry
+    def.eps = (uint32_t) ((def.spd / def.sdf) * (uint32_t) t.pick(std::vector<int64_t>{1, 2, 10}));
+    if (def.eps < 10) def.eps = 10;
+    def.sumdf = 10;
+    def.annodf = 10; def.utcdf = 10;
+    p.ops.push_back(def);
+    int64_t first = t.chance(1, 2) ? 0 : t.range(1, 100000);
+    int64_t nblocks = t.range(2, 4 + size / 25);
+    int64_t total = nblocks * def.spd + (t.chance(1, 2) ? t.range(1, def.spd - 1) : 0);
+    Pattern pat = gen_pattern(t, dt, {"random", "ramp", "small"}, def.spd);
+    int64_t written = 0, anno_ts = first, utc_id = first;
+    while (written < total) {
+        int64_t n;
+        switch (t.weighted({4, 2, 1})) {
+            case 0: n = def.spd; break;                                // one block per call
+            case 1: n = t.range(1, 2 * (int64_t) def.spd); break;
+            default: n = total - written; break;
+        }
+        if (n > total - written) n = total - written;
+        Op o; o.op = "fsr"; o.sig = id; o.sample_id = first + written; o.n = (uint32_t) n; o.pat = pat; o.poff = written;
+        p.ops.push_back(o);
+        written += n;
+        if (t.chance(1, 4)) { Op a; a.op = "anno"; a.sig = id; anno_ts += t.range(0, 50); a.ts = anno_ts; a.y = 1.5f; a.atype = (int) t.range(0, 3); a.group = 0; a.stor = 2; a.data.gen = true; a.data.seed = (uint64_t) t.raw() << 1; a.data.n = (uint32_t) t.range(0, 120); a.data.text = true; p.ops.push_back(a); }
+        if (t.chance(1, 6)) { Op u; u.op = "utc"; u.sig = id; utc_id += t.range(1, 500); u.sample_id = utc_id; u.utc = utc_id * 1000; p.ops.push_back(u); }
+        if (t.chance(1, 8)) { Op u; u.op = "user"; u.meta = (int) t.range(0, 0xfff); u.stor = 1; u.data.gen = true; u.data.seed = (uint64_t) t.raw() << 1; u.data.n = (uint32_t) t.range(0, 900); p.ops.push_back(u); }
+    }
+    return p;
+}
+
 struct GenOpts {
     int max_signals = 3;
     int64_t sample_budget = 20000;
